@@ -739,3 +739,8 @@ impl Segments {
         }
     }
 }
+
+/// Mark segment `idx` as retransmitted `count` times (count 0 = transmitted once), last at `ts_ms`.
+pub fn verif_set_retransmitted(s: &mut Segments, idx: usize, count: usize, ts_ms: u64) {
+    s.segments[idx].sent = if count == 0 { SentStatus::SentTime(at_ms(ts_ms)) } else { SentStatus::Retransmitted { count, last_send_ts: at_ms(ts_ms) } };
+}
